@@ -281,6 +281,21 @@ func c12Units(thorough bool) []*explore.Unit {
 				Body: batchBody(p, out), Check: c12Check(p, out), Sig: batchSig(out)})
 		}
 	}
+	// the connection of the only known region was lost unnoticed: locating a later call of the
+	// batch re-establishes that region on a new connection while an earlier call is already
+	// grouped under the dead one
+	for _, layout := range []string{"coloc", "spread"} {
+		for _, keys := range [][]string{{"a", "x", "a"}, {"a", "b", "x", "a"}} {
+			p := batchParams{layout: layout, keys: keys, ownCtx: -1, pre: "connlost-half"}
+			for range keys {
+				p.kinds = append(p.kinds, "put")
+				p.scripts = append(p.scripts, "")
+			}
+			out := &batchObs{}
+			units = append(units, &explore.Unit{Name: p.String(), Bound: 0, Opt: vrt.Options{MaxSteps: 60000},
+				Body: batchBody(p, out), Check: c12Check(p, out), Sig: batchSig(out)})
+		}
+	}
 	// two merges while two single gets locate the merged regions concurrently: a region a call
 	// of the batch holds may be replaced more than once while the batch is being located
 	{
